@@ -7,10 +7,12 @@ pub mod c02;
 pub mod c02_tuples;
 pub mod c04;
 pub mod c09;
+pub mod c10;
 pub mod c11;
 pub mod c12;
 pub mod c13;
 pub mod c14;
+pub mod c17;
 
 pub fn run(id: &str, rep: &mut Report) -> bool {
     match id {
@@ -18,10 +20,12 @@ pub fn run(id: &str, rep: &mut Report) -> bool {
         "C02" => c02::run(rep),
         "C04" => c04::run(rep),
         "C09" => c09::run(rep),
+        "C10" => c10::run(rep),
         "C11" => c11::run(rep),
         "C12" => c12::run(rep),
         "C13" => c13::run(rep),
         "C14" => c14::run(rep),
+        "C17" => c17::run(rep),
         _ => return false,
     }
     true
@@ -34,10 +38,12 @@ pub fn replay(id: &str, case: &Value) -> Result<Vec<(String, String)>, String> {
         "C02" => c02::replay(case),
         "C04" => c04::replay(case),
         "C09" => c09::replay(case),
+        "C10" => c10::replay(case),
         "C11" => c11::replay(case),
         "C12" => c12::replay(case),
         "C13" => c13::replay(case),
         "C14" => c14::replay(case),
+        "C17" => c17::replay(case),
         _ => Err(format!("no replay for {}", id)),
     }
 }
